@@ -143,7 +143,7 @@ func (s respScript) header(key string) http.Header {
 		h["Sec-Websocket-Protocol"] = strings.Split(s.Proto, "\n") // "\n" separates header lines
 	}
 	if s.Ext != "" {
-		h["Sec-Websocket-Extensions"] = []string{s.Ext}
+		h["Sec-Websocket-Extensions"] = strings.Split(s.Ext, "\n") // "\n" separates header lines
 	}
 	return h
 }
@@ -266,6 +266,11 @@ var respExtVariants = []string{
 	// reported under their own classes if accepted
 	"permessage-deflate; server_max_window_bits=99",
 	"permessage-deflate; server_max_window_bits=abc",
+	"\nmeow",                                     // two header lines, the first one empty
+	"\npermessage-deflate; client_max_window_bits=7",
+	"permessage-deflate\nmeow",                    // a second extension on a second line
+	"permessage-deflate; server_max_window_bits=\"", // a lone quote as value
+	"permessage-deflate; server_max_window_bits=\"\"",
 	"permessage-deflate; server_max_window_bits=012", // numerically in range, not the decimal without leading zeros the RFC asks for
 	"permessage-deflate; server_max_window_bits=+12",
 	"permessage-deflate; server_max_window_bits",
